@@ -162,6 +162,9 @@ std::optional<Payload> decode_payload_v1(MessageType type,
             if (remaining < needed) {
                 return std::nullopt;
             }
+            if (*(data) > 1) {
+                return std::nullopt;  // only the canonical flag encodings 0 and 1 are accepted
+            }
             AcknowledgePayload payload{};
             payload.accepted = *(data) != 0;
             payload.chunk_id = parse_chunk_id(data + 1);
@@ -183,6 +186,9 @@ std::optional<Payload> decode_payload_v1(MessageType type,
             const auto needed = 1 + 1 + 4;
             if (remaining < needed) {
                 return std::nullopt;
+            }
+            if (*(data) > 1) {
+                return std::nullopt;  // only the canonical flag encodings 0 and 1 are accepted
             }
             HandshakeAckPayload payload{};
             payload.accepted = *(data) != 0;
